@@ -16,6 +16,11 @@ type Case struct {
 	Block bool       `json:"block"`
 	Lines [][]string `json:"lines,omitempty"`
 	Phase int        `json:"phase"`
+	// With is a second directive in the same site block (phase 4).
+	With *Case `json:"with,omitempty"`
+	// FlagDir is the directive after which the real start must have got for
+	// the case to count as accepted (the later of the two in directive order).
+	FlagDir string `json:"flag_dir,omitempty"`
 }
 
 const addrPlaceholder = "127.0.0.1:@PORT@"
@@ -75,7 +80,15 @@ func (k *Case) Directive() string {
 
 // Text renders the whole Casketfile for a site address.
 func (k *Case) Text(addr string) string {
-	return addr + " {\n\t" + k.Directive() + "\n}\n"
+	return addr + " {\n\t" + k.Key() + "\n}\n"
+}
+
+// Key is the canonical text of the case (all its directives).
+func (k *Case) Key() string {
+	if k.With != nil {
+		return k.Directive() + "\n\t" + k.With.Directive()
+	}
+	return k.Directive()
 }
 
 // lexical classes. Paths are rooted at "/" because the child processes are
@@ -225,13 +238,16 @@ type budget struct {
 	p3sysCap   int
 	p2heads    int
 	startPer   int // agreement sample per directive
+	crossAcc   int // phase 4: accepted representatives per directive
+	crossRej   int
+	crossStart int // phase 4 cases that are also really started
 }
 
 func budgets(c *lib.Ctx) budget {
 	if c.Quick() {
-		return budget{p1n3: 400, p1n4: 150, p1cap: 4000, p2cap: 8000, p2n2: 10, p2n3: 4, p3pairs: 1500, p3variants: 8, p3sysCap: 25000, p2heads: 4, startPer: 40}
+		return budget{p1n3: 400, p1n4: 150, p1cap: 4000, p2cap: 8000, p2n2: 10, p2n3: 4, p3pairs: 1500, p3variants: 8, p3sysCap: 25000, p2heads: 4, startPer: 40, crossAcc: 3, crossRej: 1, crossStart: 1500}
 	}
-	return budget{p1Full2: true, p1n3: 20000, p1n4: 10000, p1cap: 60000, p2cap: 120000, p2n2: 80, p2n3: 30, p3pairs: 30000, p3variants: 40, p3sysCap: 100000, p2heads: 6, startPer: 800}
+	return budget{p1Full2: true, p1n3: 20000, p1n4: 10000, p1cap: 60000, p2cap: 120000, p2n2: 80, p2n3: 30, p3pairs: 30000, p3variants: 40, p3sysCap: 100000, p2heads: 6, startPer: 800, crossAcc: 9, crossRej: 2, crossStart: 10000}
 }
 
 // phase1: head arguments only (plus empty blocks).
@@ -433,4 +449,38 @@ func genPhase3(c *lib.Ctx, d *dirVocab, p2 []*Case, acc map[int]bool, b budget) 
 		out = append(out, &Case{Dir: d.name, Args: l1.head, Block: true, Lines: [][]string{l1.line, l2}, Phase: 3})
 	}
 	return dedupe(out)
+}
+
+// genCross: phase 4, two different directives in one site block, built from
+// representatives (accepted and rejected) of the single-directive phases.
+func genCross(c *lib.Ctx, dirs []string, reps map[string][]*Case) []*Case {
+	r := c.Rng("c11/cross")
+	order := map[string]int{}
+	for i, d := range dirs {
+		order[d] = i
+	}
+	var out []*Case
+	for i, d1 := range dirs {
+		for _, d2 := range dirs[i+1:] {
+			for _, a := range reps[d1] {
+				for _, b := range reps[d2] {
+					x, y := *a, *b
+					x.With, y.With = nil, nil
+					first, second := &x, &y
+					if r.Bool() {
+						first, second = second, first
+					}
+					k := *first
+					k.With = second
+					k.Phase = 4
+					k.FlagDir = d2 // d2 comes later in directive order
+					if order[d1] > order[d2] {
+						k.FlagDir = d1
+					}
+					out = append(out, &k)
+				}
+			}
+		}
+	}
+	return out
 }
